@@ -7,7 +7,8 @@
 From Coq Require Import String.
 From Rend Require Import base.Bytes gen.Consts_gen spec.MapSpec orca.Types handlers.ChunkFmt
   handlers.Chunked handlers.ChunkedSpec handlers.ChunkedRefBase handlers.ChunkedFaults handlers.ChunkedFaultsProofs
-  handlers.ChunkedFaultsRead handlers.ChunkedFaultsWrite handlers.ChunkedFaultsEx.
+  handlers.ChunkedFaultsRead handlers.ChunkedFaultsWrite handlers.ChunkedFaultsEx
+  handlers.ChunkedRefCmds handlers.ChunkedFaultsSpec handlers.ChunkedFaultsAfter handlers.ChunkedFaultsLater handlers.ChunkedFaultsMulti handlers.ChunkedFaultsTouch.
 Open Scope N_scope.
 
 (* the empty plan is the fault-free handler of Chunked.v (C04 / C05 / C09 are about it) *)
@@ -99,6 +100,90 @@ Theorem c10_chunked_frame_f : forall pl tok cnow q s now k',
   abs_entry (fst (chunked_exec_f pl tok cnow s now q)) now k' = abs_entry s now k'.
 Proof. exact frame_abs_f. Qed.
 Print Assumptions c10_chunked_frame_f.
+
+(* ---- what a LATER fault-free read returns ---- *)
+(* a fault-free get / get-and-touch of ANY backend store — well-formed or half-written — returns
+   exactly the abstraction of the store (a hit with abs_entry's data and flags, or a miss) *)
+Theorem c10_chunked_read_is_abs : forall st now k,
+  meta_small st now k ->
+  (forall opq qt, read_get st now k opq qt = HVals [owed_item st now k opq qt] None) /\
+  (forall ttl opq, read_gat st now k ttl opq = HVals [owed_item st now k opq false] None).
+Proof. exact read_is_abs. Qed.
+Print Assumptions c10_chunked_read_is_abs.
+
+Theorem c10_chunked_set_acked_read : forall pl tok now s m k d f ttl s',
+  plan_ok pl -> 1 <= len k <= 250 -> len tok = tokenSize -> len d < 4294967296 -> f < 4294967296 ->
+  now < 4294967296 -> ttl < 4294967296 -> now + ttl < 4294967296 -> snd (c_exptime now ttl) = false ->
+  chunked_exec_f pl tok now s now (HSet m k d f ttl) = (s', CRes HDone) ->
+  let v := view (lv now (Some (mkE d f (norm now ttl)))) in
+  (forall opq qt, reads_as (read_get s' now k opq qt) v) /\ (forall ttl2 opq, reads_as (read_gat s' now k ttl2 opq) v).
+Proof. exact set_acked_read. Qed.
+Print Assumptions c10_chunked_set_acked_read.
+
+Theorem c10_chunked_set_aon_read : forall pl s now tok k d f ttl,
+  plan_ok pl -> 1 <= len k <= 250 -> len tok = tokenSize -> len d < 4294967296 -> f < 4294967296 ->
+  now < 4294967296 -> fst (c_exptime now ttl) < 4294967296 -> fresh_tok s now k tok -> meta_small s now k ->
+  forall m, snd (c_exptime now ttl) = false ->
+  let st := fst (chunked_exec_f pl tok now s now (HSet m k d f ttl)) in
+  exists v, (v = None \/ v = cview s now k \/ v = Some (d, f)) /\
+            (forall opq qt, reads_as (read_get st now k opq qt) v) /\
+            (forall ttl2 opq, reads_as (read_gat st now k ttl2 opq) v).
+Proof. exact set_aon_read. Qed.
+Print Assumptions c10_chunked_set_aon_read.
+
+Theorem c10_chunked_delete_acked_read : forall pl tok cnow s now k s',
+  plan_ok pl -> chunked_exec_f pl tok cnow s now (HDelete k) = (s', CRes HDone) ->
+  (forall opq qt, read_get s' now k opq qt = HVals [mkGR k [] 0 0 opq qt true] None) /\
+  (forall ttl2 opq, read_gat s' now k ttl2 opq = HVals [mkGR k [] 0 0 opq false true] None).
+Proof. exact delete_acked_read. Qed.
+Print Assumptions c10_chunked_delete_acked_read.
+
+(* ---- append / prepend under any plan (catv front d old = d ++ old or old ++ d) ---- *)
+(* acknowledged => a later read returns the old value extended, with the old flags
+   (realTimeMaxDelta < now: the recorded absolute expiry is re-used as a TTL, as in C04b) *)
+Theorem c10_chunked_cat_acked : forall pl s now tok k d front s',
+  plan_ok pl -> 1 <= len k <= 250 -> wf_key s now k -> len tok = tokenSize -> now < 2147483648 ->
+  (forall old fl, cview s now k = Some (old, fl) -> len old + len d < 4294967296) ->
+  realTimeMaxDelta < now -> chunked_exec_f pl tok now s now (HCat front k d) = (s', CRes HDone) ->
+  exists old fl, cview s now k = Some (old, fl) /\
+    (forall opq qt, reads_as (read_get s' now k opq qt) (Some (catv front d old, fl))) /\
+    (forall ttl2 opq, reads_as (read_gat s' now k ttl2 opq) (Some (catv front d old, fl))).
+Proof. exact cat_acked_read. Qed.
+Print Assumptions c10_chunked_cat_acked.
+
+(* whatever it returned (success, error, panic): a later read returns nothing, the old value, or
+   the complete concatenation — never a mix *)
+Theorem c10_chunked_cat_aon : forall pl s now tok k d front,
+  plan_ok pl -> 1 <= len k <= 250 -> wf_key s now k -> len tok = tokenSize -> now < 2147483648 ->
+  (forall old fl, cview s now k = Some (old, fl) -> len old + len d < 4294967296) ->
+  fresh_tok s now k tok ->
+  let st := fst (chunked_exec_f pl tok now s now (HCat front k d)) in
+  exists v, (v = None \/ v = cview s now k \/ exists old fl, cview s now k = Some (old, fl) /\ v = Some (catv front d old, fl)) /\
+            (forall opq qt, reads_as (read_get st now k opq qt) v) /\
+            (forall ttl2 opq, reads_as (read_gat st now k ttl2 opq) v).
+Proof. exact cat_aon_read. Qed.
+Print Assumptions c10_chunked_cat_aon.
+
+(* ---- multi-key get under any plan: every returned item answers the request item at its
+   position (key, opaque) and is a miss or exactly that key's value before the call; without an
+   error every item is answered ---- *)
+Theorem c10_chunked_read_sound_multi : forall pl s now items,
+  plan_ok pl -> Forall (fun it => 1 <= len (gi_key it) <= 250 /\ wf_key s now (gi_key it)) items ->
+  let X := chunked_exec_f pl [] 0 s now (HGet items) in
+  lsub now s (fst X) /\
+  exists rs eo, snd X = CRes (HVals rs eo) /\ answers s now items rs /\ (eo = None -> length rs = length items).
+Proof. exact get_multi_sound_f. Qed.
+Print Assumptions c10_chunked_read_sound_multi.
+
+(* touch under any plan never changes the value: whatever it returned (success, error, panic),
+   the key afterwards reads as nothing or with exactly the data and flags it had; which deadline
+   it then carries (old / new, possibly mixed over metadata and chunks) is NOT stated *)
+Theorem c10_chunked_touch_aon : forall pl s now tok k ttl,
+  plan_ok pl -> 1 <= len k <= 250 -> wf_key s now k -> fst (c_exptime now ttl) < 4294967296 ->
+  let st := fst (chunked_exec_f pl tok now s now (HTouch k ttl)) in
+  cview st now k = None \/ cview st now k = cview s now k.
+Proof. exact touch_aon_f. Qed.
+Print Assumptions c10_chunked_touch_aon.
 
 (* ---- non-vacuity ---- *)
 (* a two-chunk value; set of a three-chunk value with the connection breaking after the second
